@@ -79,9 +79,13 @@ def generate(tier, seed, work, stats):
     # feature grammars
     fams = [(2, 1, 2, 2, 8), (2, 2, 2, 1, 4)] if tier == "quick" else [(2, 1, 2, 2, 1), (2, 2, 2, 1, 1), (2, 1, 3, 2, 200)]
     for nv, nt, maxp, maxb, k in fams:
+        # large families are sampled by the hash of the state text before they are parsed (memory)
         states = core.tlc_dump("FCFGGen", fcfg_cfg(nv, nt, maxp, maxb), work, stats=stats,
-                               name="FCFGGen-v%d-t%d-p%d-b%d" % (nv, nt, maxp, maxb))
+                               name="FCFGGen-v%d-t%d-p%d-b%d" % (nv, nt, maxp, maxb), keep=(k, seed) if k >= 8 else None)
         keyed = sorted(sorted(tlaparse.to_json(st["prods"])) for st in states)
+        del states
+        if k >= 8:
+            k = 1
         for i, prods in enumerate(keyed):
             if prods and (k <= 1 or (i + seed) % k == 0):
                 cases.append(dict(kind="fcfg", prods=prods, family="FCFGGen"))
